@@ -62,7 +62,10 @@ structure StateClock (n : Nat) where
   tot : List Nat                 -- total_time_spent_in_states, by state index
   deriving Repr, Inhabited, DecidableEq
 
-def addAt (l : List Nat) (i v : Nat) : List Nat := l.mapIdx (fun j x => if j = i then x + v else x)
+def addAt : List Nat → Nat → Nat → List Nat
+  | [], _, _ => []
+  | x :: xs, 0, v => (x + v) :: xs
+  | x :: xs, i + 1, v => x :: addAt xs i v
 
 def StateClock.update {n : Nat} (c : StateClock n) (new t : Nat) : StateClock n :=
   match c.last with
@@ -75,5 +78,14 @@ def firstTrig (toks trig : List Nat) : Option Nat := toks.findIdx? (fun t => tri
 /-- a position and its token, all other positions (to be cancelled, in list order) -/
 def others (toks : List Nat) (i : Nat) : List (Nat × Nat) :=
   (toks.zipIdx.filter (fun p => p.2 != i)).map (fun p => (p.2, p.1))
+
+/-- consult the selection policy once: (answer, new round-robin state, calls made) -/
+def selIdx (pol : Pol) (rr n : Nat) (a : Ans) : Option Int × Nat × List Call :=
+  match pol with
+  | .const k => (some k, rr, [])
+  | .rr => (some (rr : Int), (rr + 1) % n, [])
+  | .rnd => (a.sels.head?, rr, [])
+  | .user => (a.sels.head?, rr, (a.sels.head?.map fun k => [Call.sel k]).getD [])
+  | .fa => (none, rr, [])
 
 end FsVerif
